@@ -15,6 +15,7 @@
 package storage
 
 import (
+	"bytes"
 	"context"
 	"os"
 	"time"
@@ -202,7 +203,12 @@ func (s *SSD) lookup(q lookupQuery) (matches message.Frame) {
 			if !it.Valid() {
 				return nil
 			}
-			it.Next()
+
+			// Skip the message we continue from. If it has expired in the meantime,
+			// we are on the next message already, which must not be skipped.
+			if bytes.Equal(it.Item().Key(), q.StartFromID) {
+				it.Next()
+			}
 		}
 
 		matchesSize := 0
